@@ -86,6 +86,7 @@ def _run_child_inner(pid, scn, seed, outpath, replay_overrides=None, replay_only
             res["traceback"] = tb[-3000:]
         return S, res
 
+    first_try_only = bool(os.environ.get("VERIF_NO_RETRY"))
     if replay_only:
         S, res = attempt(replay_overrides, True)
     else:
@@ -108,6 +109,27 @@ def _run_child_inner(pid, scn, seed, outpath, replay_overrides=None, replay_only
             res["spurious_candidates"] = spurious
             if res["status"] != "violation":
                 res["reason"] = "sat candidate(s) did not reproduce on the real code (abstraction): SPURIOUS"
+        if res["status"] == "inconclusive" and not str(res.get("reason", "")).startswith(("Unsupported", "NotEncodable")) and not first_try_only:
+            # budgets are wall-clock (z3 timeouts): on a loaded machine a merge or an obligation that normally takes a fraction of
+            # its budget can come back `unknown` (and a missed merge can show up as a spurious `sat`). One patient second attempt with
+            # every budget multiplied by 8 - a verdict is only ever `unsat` (holds) or a replayed violation, so this cannot hide one.
+            from symten import core as _core
+            _core.PATIENCE[0] = 8.0
+            try:
+                S, res2 = attempt(None, False)
+                if res2["status"] == "inconclusive" and S.candidates and not res2.get("reason"):
+                    for lab, ov in S.candidates[:3]:
+                        S2, r2 = attempt(ov, True)
+                        if S2.violations:
+                            res2["status"] = "violation"; res2["violations"] = S2.violations[:10]; res2["n_violations"] = len(S2.violations)
+                            res2["witness"] = S2.witness; res2["replayed_model_for"] = lab; res2["overrides"] = ov
+                            break
+                    if res2["status"] != "violation":
+                        res2["reason"] = "sat candidate(s) did not reproduce on the real code (abstraction): SPURIOUS"
+                res2["patient_retry"] = True
+                res = res2
+            finally:
+                _core.PATIENCE[0] = 1.0
     with open(outpath, "w") as f:
         json.dump(res, f, default=str)
 
